@@ -15,10 +15,10 @@ Local Open Scope list_scope.
    of #[serde] attributes) outside the four remaining classes: the emitted keys / literals are exactly
    serde's wire names - an item rename wins, the container rule is the field rule for struct fields
    and the variant rule for variants, unattributed items keep their Rust name, an item is absent iff
-   it carries skip - and the model never panics. *)
+   it carries skip. (The naming routines are total since the camelCase guards.) *)
 Theorem C06_names : forall c : container,
   in_domain c = true -> kf_C06 c = false ->
-  emitted_keys default_field_case c = Ok (serde_wire_names c).
+  emitted_keys default_field_case c = serde_wire_names c.
 Proof. exact names_correct. Qed.
 
 (* attributes other than rename and skip (skip_serializing_if = s, default, default = s, ...) change
@@ -35,13 +35,13 @@ Theorem C06_spec_ignores_others : forall c c' : container,
 Proof. exact spec_ignores_others. Qed.
 
 (* the naming routines as called: apply_naming_convention (total since the camelCase guard) computes
-   serde's field rule, apply_to_variant (with its byte slices) never panics on an identifier and
-   computes serde's variant rule *)
+   serde's field rule, the rule part of compute_variant_name (camelCase computed at the call site,
+   apply_to_variant otherwise) is serde's variant rule *)
 Theorem C06_field_rule : forall (r : rule) (s : str),
   ident_ok s = true -> apply_naming_convention r s = field_rule r s.
 Proof. exact apply_field_ok. Qed.
 Theorem C06_variant_rule : forall (r : rule) (s : str),
-  ident_ok s = true -> apply_to_variant_b r s = Ok (variant_rule r s).
+  (match r with RCamel => variant_camel s | _ => apply_to_variant r s end) = variant_rule r s.
 Proof. exact apply_variant_ok. Qed.
 
 (* where the repaired defect C06-1 was visible: outside rules_differ the two rules coincide *)
@@ -63,11 +63,11 @@ Proof. exact field_skip_group. Qed.
 (* repaired defects: the old witnesses of C06-1 and C06-6 now satisfy the property, and the oracle
    rejects the old output *)
 Theorem C06_variant_rule_repaired : in_domain w1 = true /\ kf_C06 w1 = false /\
-  emitted_keys default_field_case w1 = Ok [L "IN_PROGRESS"; L "DONE"] /\ c06_ok w1 [L "IN_PROGRESS"; L "DONE"] = true
+  emitted_keys default_field_case w1 = [L "IN_PROGRESS"; L "DONE"] /\ c06_ok w1 [L "IN_PROGRESS"; L "DONE"] = true
   /\ c06_ok w1 [L "INPROGRESS"; L "DONE"] = false.
 Proof. exact variant_rule_repaired. Qed.
 Theorem C06_variant_skip_repaired : in_domain w6 = true /\ kf_C06 w6 = false /\
-  emitted_keys default_field_case w6 = Ok [L "Active"] /\ c06_ok w6 [L "Active"] = true /\ c06_ok w6 [L "Active"; L "Gone"] = false.
+  emitted_keys default_field_case w6 = [L "Active"] /\ c06_ok w6 [L "Active"] = true /\ c06_ok w6 [L "Active"; L "Gone"] = false.
 Proof. exact variant_skip_repaired. Qed.
 
 (* each remaining class fails on the faithful model: computed witnesses *)
@@ -101,7 +101,7 @@ Definition ex_struct : container :=
                  it0 "_a__b1" [[MRename (L "is it = , ok")]]] |}.
 Example C06_ex_struct :
   in_domain ex_struct = true /\ kf_C06 ex_struct = false /\
-  emitted_keys default_field_case ex_struct = Ok [L "userId"; L "firstLastName"; L "full-name"; L "is it = , ok"].
+  emitted_keys default_field_case ex_struct = [L "userId"; L "firstLastName"; L "full-name"; L "is it = , ok"].
 Proof. vm_compute. repeat split. Qed.
 Definition ex_enum : container :=
   {| c_kind := KEnum; c_attrs := [[CRenameAll (L "kebab-case")]];
@@ -109,12 +109,12 @@ Definition ex_enum : container :=
                  it0 "Gone" [[MSkip; MOther (L "alias") (Some (L "x"))]]] |}.
 Example C06_ex_enum :
   in_domain ex_enum = true /\ kf_C06 ex_enum = false /\
-  emitted_keys default_field_case ex_enum = Ok [L "in-progress"; L "h-t-t-p-error"; L "fin"].
+  emitted_keys default_field_case ex_enum = [L "in-progress"; L "h-t-t-p-error"; L "fin"].
 Proof. vm_compute. repeat split. Qed.
 (* an unattributed struct keeps the Rust names *)
 Example C06_ex_plain :
   emitted_keys default_field_case {| c_kind := KStruct; c_attrs := []; c_items := [it0 "user_id" []; it0 "URL" []] |}
-  = Ok [L "user_id"; L "URL"].
+  = [L "user_id"; L "URL"].
 Proof. vm_compute. reflexivity. Qed.
 (* the two containers of the inertness statement really differ only in other attributes *)
 Example C06_ex_inert :
